@@ -39,7 +39,7 @@ struct Payload {
 }
 
 /// What the generated programs need from a protected value
-trait Val: Send + 'static {
+trait Val: Send + Unpin + 'static {
     fn new(drops: Arc<AtomicUsize>) -> Self;
     fn touch(&mut self, tag: u32);
 }
@@ -96,6 +96,12 @@ enum Op {
     YieldAwait,
     /// the same, detached
     YieldDetach,
+    /// pipe_in fed by a producer thread through a real channel
+    PipeIn,
+    /// pipe whose whole output is collected by this thread
+    PipeCollect,
+    /// pipe whose output is dropped after one item while the producer keeps sending
+    PipeDropOutput,
 }
 
 /// Wakes its own waker during the first poll and returns Pending once
@@ -163,7 +169,7 @@ fn run_program<P: Val>(s: &mut Src) {
         let mut p = vec![];
         for _ in 0..n {
             let o = s.below(nobj);
-            let k = s.below(if allow_panic { 15 } else { 13 });
+            let k = if !allow_panic && pool >= 1 && s.u8() < 48 { 15 + s.below(3) } else { s.below(if allow_panic { 15 } else { 13 }) };
             let op = match k {
                 0 => Op::Desync,
                 1 => Op::Sync,
@@ -184,7 +190,10 @@ fn run_program<P: Val>(s: &mut Src) {
                 11 => Op::YieldAwait,
                 12 => Op::YieldDetach,
                 13 => Op::PanicDesync,
-                _ => Op::PanicSync,
+                14 => Op::PanicSync,
+                15 => Op::PipeIn,
+                16 => Op::PipeCollect,
+                _ => Op::PipeDropOutput,
             };
             p.push((op, o));
         }
@@ -336,6 +345,66 @@ fn run_program<P: Val>(s: &mut Src) {
                         });
                     }
                     Op::Release => {}
+                    Op::PipeIn => {
+                        let (mut tx, rx) = futures::channel::mpsc::channel::<u32>(2);
+                        let n = 1 + (tag % 40);
+                        let seen = Arc::new(AtomicUsize::new(0));
+                        let seen2 = seen.clone();
+                        desync::pipe_in(h.clone(), rx, move |p: &mut P, item: u32| {
+                            p.touch(item);
+                            seen2.fetch_add(1, Ordering::SeqCst);
+                            async {}.boxed()
+                        });
+                        let producer = std::thread::spawn(move || {
+                            for i in 0..n {
+                                if block_on(tx.send(i)).is_err() { break; }
+                            }
+                        });
+                        let _ = producer.join();
+                        // everything that was sent is processed without anybody asking again
+                        let t0 = std::time::Instant::now();
+                        while seen.load(Ordering::SeqCst) < n as usize {
+                            if t0.elapsed() > Duration::from_secs(6) {
+                                eprintln!("DV-ASAN: watchdog: pipe_in processed {} of {} items (inconclusive)", seen.load(Ordering::SeqCst), n);
+                                loop { std::thread::sleep(Duration::from_secs(3600)); }
+                            }
+                            std::thread::sleep(Duration::from_micros(200));
+                        }
+                    }
+                    Op::PipeCollect => {
+                        let (mut tx, rx) = futures::channel::mpsc::channel::<u32>(1);
+                        let n = 1 + (tag % 40);
+                        let mut out = desync::pipe(h.clone(), rx, move |p: &mut P, item: u32| {
+                            p.touch(item);
+                            async move { item.wrapping_mul(3) }.boxed()
+                        });
+                        out.set_backpressure_depth(1 + (tag as usize % 4));
+                        let producer = std::thread::spawn(move || {
+                            for i in 0..n {
+                                if block_on(tx.send(i)).is_err() { break; }
+                            }
+                        });
+                        let got: Vec<u32> = block_on(out.collect());
+                        let _ = producer.join();
+                        // (what a pipe delivers is C12's business and is judged under the controlled scheduler; here the outputs only have to
+                        // be real memory)
+                        let _ = got.iter().fold(0u32, |a, b| a.wrapping_add(*b));
+                    }
+                    Op::PipeDropOutput => {
+                        let (mut tx, rx) = futures::channel::mpsc::channel::<u32>(1);
+                        let mut out = desync::pipe(h.clone(), rx, move |p: &mut P, item: u32| {
+                            p.touch(item);
+                            async move { item }.boxed()
+                        });
+                        let producer = std::thread::spawn(move || {
+                            for i in 0..8u32 {
+                                if block_on(tx.send(i)).is_err() { break; }
+                            }
+                        });
+                        let _first = block_on(out.next());
+                        drop(out);
+                        let _ = producer.join();
+                    }
                 }));
                 if r.is_err() && !is_poisoned() {
                     eprintln!("DV-ASAN: a call on a healthy object panicked");
